@@ -424,3 +424,79 @@ def c11_5(run):
 def _path(tag):
     o = Obj('std::path::PathBuf', kind='opaque'); o.attrs['tag'] = tag
     return o
+
+
+# ----------------------------------------------------------------------------------------------------------------- C11-6
+@obligation('C11', 'C11-6 Celestia responses: a submission counts as confirmed at height h only if GetTx answered code 0 and height h > 0; any non-zero code (GetTx or BroadcastTx) is an error; no answer / height 0 means still pending')
+def c11_6(run):
+    import re as _re
+    from mirsym import models as M
+    from mirsym.engine import ok as _ok, err as _err, some as _some, none as _none
+    def h_into_inner(ctx):
+        r = ctx.ex.deref_val(ctx.st, ctx.args[0])
+        return [(None, r.attrs['inner'])]
+
+    def h_status_code(ctx):
+        c = Obj('tonic::Code'); c.discr = z3.BitVec('status_code', 64)
+        ctx.st.pc.append(z3.ULE(c.discr, 16))
+        return [(None, c)]
+    CODES = {'Ok': 0, 'Cancelled': 1, 'Unknown': 2, 'InvalidArgument': 3, 'DeadlineExceeded': 4, 'NotFound': 5, 'AlreadyExists': 6, 'PermissionDenied': 7}
+
+    def code_val(ctx, v):
+        v = ctx.ex.deref_val(ctx.st, v)
+        if isinstance(v, Obj) and v.kind == 'const':
+            m_ = _re.search(r'Code::(\w+)', v.attrs.get('const', ''))
+            if m_ and m_.group(1) in CODES:
+                return z3.BitVecVal(CODES[m_.group(1)], 64)
+        if isinstance(v, Obj) and v.discr is not None:
+            d = v.discr
+            return z3.BitVecVal(CODES[d], 64) if isinstance(d, str) and d in CODES else (z3.BitVecVal(d, 64) if isinstance(d, int) else d)
+        raise Inconclusive(f'tonic::Code value not understood: {v!r} {getattr(v, "attrs", None)}')
+
+    def h_code_eq(ctx):
+        return [(None, code_val(ctx, ctx.args[0]) == code_val(ctx, ctx.args[1]))]
+    hooks = [(_re.compile(r'^<tonic::Code as PartialEq>::eq$'), h_code_eq), (_re.compile(r'^(tonic::)?Response::<.*>::into_inner$'), h_into_inner), (_re.compile(r'^(tonic::)?Status::code$'), h_status_code),
+             (_re.compile(r'GrpcResponseError as From<.*Status>>::from$'), lambda ctx: [(None, Obj('GrpcResponseError', kind='opaque'))]),
+             (_re.compile(r'make_ascii_lowercase$'), lambda ctx: [(None, ())])]
+    ex = loader.load(['astria-sequencer-relayer', 'astria-core'], hooks=hooks, scalar_types={'tendermint::block::Height': 64, 'SequencerHeight': 64})
+    run.bound(responses='arbitrary gRPC outcome: transport error with any status code, empty response, or a TxResponse with arbitrary code (u32) and height (i64)')
+    NOT_FOUND = 5       # tonic::Code::NotFound
+    n = 0
+    for fname, raw_ty, is_get in (('block_height_from_response', 'GetTxResponse', True), ('lowercase_hex_encoded_tx_hash_from_response', 'BroadcastTxResponse', False)):
+        f = ex.find(rf'(^|::){fname}$')
+        code, height = z3.BitVec('tx_code', 32), z3.BitVec('tx_height', 64)
+        for shape in ('transport-error', 'empty', 'tx-response'):
+            if shape == 'transport-error':
+                arg = _err(Obj('tonic::Status', kind='opaque'))
+            else:
+                txr = B.struct(ex, 'cosmos::base::abci::v1beta1::TxResponse', code=code, height=height) if shape == 'tx-response' else None
+                inner = B.struct(ex, raw_ty, tx_response=_some(txr) if txr is not None else _none())
+                resp = Obj('tonic::Response', kind='opaque'); resp.attrs['inner'] = inner
+                arg = _ok(resp)
+            for i, p in enumerate(run.explore(ex, ex.start(f, [arg]), allow_havoc=(r'^Arguments::|fmt::', r'Status::message'))):
+                lab = f'[{fname}, {shape}, path {i}]'
+                if p.kind != 'return':
+                    run.prove(f'no panic {lab}', p.pc, z3.BoolVal(False), detail=p.info); continue
+                n += 1
+                r = p.result
+                run.sample({'fn': fname, 'shape': shape, 'path': i, 'result': r.discr})
+                if is_get:
+                    if r.discr == 'Ok':
+                        o = ex.deref_val(p, r.fields[('Ok', 0)])
+                        if o.discr == 'Some':
+                            h = ex.deref_val(p, o.fields[('Some', 0)])
+                            run.prove(f'confirmed at h => a TxResponse with code 0 and height h > 0 {lab}', p.pc, z3.And(z3.BoolVal(shape == 'tx-response'), code == 0, height > 0, h == height))
+                        else:
+                            run.prove(f'pending => transport says not-found, or code 0 and height 0 {lab}', p.pc,
+                                      z3.BitVec('status_code', 64) == NOT_FOUND if shape == 'transport-error' else z3.And(z3.BoolVal(shape == 'tx-response'), code == 0, height == 0))
+                    else:
+                        run.prove(f'error => not a clean confirmation (transport error other than not-found, empty response, non-zero code, or negative height) {lab}', p.pc,
+                                  z3.BitVec('status_code', 64) != NOT_FOUND if shape == 'transport-error' else (z3.BoolVal(True) if shape == 'empty' else z3.Or(code != 0, height < 0)))
+                    if shape == 'tx-response':
+                        run.prove(f'a non-zero code is never reported as confirmed or pending {lab}', p.pc, z3.Implies(code != 0, z3.BoolVal(r.discr == 'Err')))
+                else:
+                    run.prove(f'a broadcast is accepted iff a TxResponse with code 0 came back {lab}', p.pc,
+                              z3.BoolVal(r.discr == 'Ok') == (z3.And(z3.BoolVal(shape == 'tx-response'), code == 0)))
+    if n < 8:
+        raise Inconclusive(f'vacuity: only {n} paths')
+    run.require_reached(*run.cur.reach)
